@@ -2,13 +2,19 @@ import Driver.Latch
 import Driver.LockFam
 import Driver.Barrier
 import Driver.LR
+import Driver.HB
+import Driver.DD
+import Driver.Deferred
+import Driver.Trigger
 import Driver.TripWire
+import Driver.SOH
 open Driver
 
-def comps : List Comp := [LatchD.comp, LockFamD.comp, BarrierD.comp, LRD.comp, LRD.compStrict, TripWireD.comp]
+def comps : List Comp := [LatchD.comp, LockFamD.comp, BarrierD.comp, DeferredD.comp, TripWireD.comp, SOHD.comp, SOHD.compNoTap, TriggerD.comp, DDD.comp, LRD.comp, LRD.compStrict]
 
 def main (args : List String) : IO UInt32 := do
   match args with
+  | ["hb"] => Driver.HBD.run
   | [name] =>
       match comps.find? (·.name == name) with
       | some c => runComp c
